@@ -49,7 +49,7 @@ class MuxWorld(World):
                        "CSR initiator (seeded open-loop agent)")
     fault_kinds = ("abort", "gap", "rw_same_cycle", "unmapped_access", "byzantine_raw",
                    "nonconforming_access", "registers_added_after_multiplexer_was_constructed",
-                   "elaborated_while_still_being_populated")
+                   "elaborated_while_still_being_populated", "read_and_write_woven")
     assumptions = (
         "Amaranth's Python RTL simulator executes the elaborated netlist faithfully",
         "protocol conformance is decided by the tracker in models/regfile.py from the property "
@@ -133,6 +133,13 @@ class MuxWorld(World):
                 ops.append({"k": "raw", "addr": rng.below(1 << aw), "r": rng.below(2),
                             "w": rng.below(2), "data": rng.bits(dw)})
                 cycles += 1
+            elif k < 55:
+                size = 6
+                ops.append({"k": "weave", "reg": rng.below(nreg), "rn": rng.below(12),
+                            "wn": rng.below(12), "ord": [rng.below(3) for _ in range(size)],
+                            "gaps": [rng.range(1, 2) if rng.chance(0.15) else 0 for _ in range(size)],
+                            "data": [rng.bits(dw) for _ in range(size)]})
+                cycles += 6
             else:
                 size = 6
                 n = None if rng.chance(0.7) else rng.below(12)
@@ -294,6 +301,8 @@ class MuxWorld(World):
                 # ---- statistics ----------------------------------------------------------
                 if tag == "gap":
                     stats.fault("gap")
+                elif tag == "weave":
+                    stats.fault("read_and_write_woven")
                 elif tag == "raw":
                     stats.fault("byzantine_raw")
                 if rs and ws:
@@ -334,6 +343,15 @@ class MuxWorld(World):
                 yield dict(op, mode="w")
             if any(d not in (0, 1) for d in (op.get("data") or [])):
                 yield dict(op, data=[1] * len(op["data"]))
+        elif op.get("k") == "weave":
+            if any(op.get("gaps") or []):
+                yield dict(op, gaps=[])
+            if any(op.get("ord") or []):
+                yield dict(op, ord=[])
+            yield {"k": "txn", "reg": op.get("reg", 0), "mode": "r", "n": op.get("rn", 0),
+                   "gaps": [], "data": op.get("data") or []}
+            yield {"k": "txn", "reg": op.get("reg", 0), "mode": "w", "n": op.get("wn", 0),
+                   "gaps": [], "data": op.get("data") or []}
         elif op.get("k") == "raw":
             if op.get("r") and op.get("w"):
                 yield dict(op, r=0)
@@ -350,7 +368,7 @@ class MuxWorld(World):
             # keep register indices of later registers stable where possible
             o = []
             for op in ops:
-                if op.get("k") == "txn":
+                if op.get("k") in ("txn", "weave"):
                     r = op.get("reg", 0) % max(1, len(regs))
                     if r == j:
                         continue
